@@ -36,6 +36,9 @@ def run(ctx):
     ctx.rule('R20d', 'the line-start table is 0 followed by (index of each newline) + 1 in increasing order: '
                      'every search for the next newline starts at the previous line start, no line is '
                      'skipped; the table is built from the string given to the calculator', 3)
+    ctx.rule('R20e', 'no line/column calculator is shared between walkers through a module-level cache '
+                     'whose key omits the string or one of the offsets (C09\'s module-state rule on '
+                     '_util and _walker)', 1)
     ctx.rule('G9', 'a position value (pos, epos, pos_end, ...) is never tested by truthiness: 0 is '
                    'a valid position and must not be treated like None', 1)
 
@@ -116,6 +119,14 @@ def run(ctx):
                    'another line/column than LineNumbersCalculator gives for it'
                    % (' & '.join(bad[0].cond_src())[-120:] if bad else '', bad[1] if bad else ''),
                    construct='delegation')
+
+    # ------------------------------------------------------------ R20e
+    # a calculator (or its table) remembered at module level must be keyed by everything it was
+    # built from: the string and the three offsets
+    from . import c09
+    c09._module_state(ctx, repo, 'R20e', lambda name: name in (UTIL, WALKER))
+    ctx.holds('R20e', w, wp, 'module-level containers of _util/_walker scanned for stores outside the memo '
+                             'idiom and for incomplete cache keys', construct='module state scan', trivial=True)
 
     # ------------------------------------------------------------ R20a
     pcm = w.methods('LatexWalker._ParsingContext')
@@ -253,8 +264,9 @@ def _r20d(ctx, u, init):
         ctx.unknown('R20d', u, g, 'generator is not one while loop', construct='line-start generator')
         return
     loop = loops[0]
-    w = symex.Walker(is_sink=lambda n: True, sink_types=(ast.Yield,), want_exits=True, pure=('find', 'index'))
-    pre = w.run_block(g.body[:g.body.index(loop)])
+    mk = lambda: symex.Walker(is_sink=lambda n: True, sink_types=(ast.Yield,), want_exits=True,
+                              pure=('find', 'index'), trace=True)
+    pre = mk().run_block(g.body[:g.body.index(loop)])
     first = [c for c in pre if c.kind == 'call']
     ok0 = len(first) == 1 and isinstance(first[0].sub.value, ast.Constant) and first[0].sub.value.value == 0
     ctx.decide('R20d', ok0, u, first[0].node if first else g, 'the first line starts at 0',
@@ -263,51 +275,101 @@ def _r20d(ctx, u, init):
     if len(ends) != 1:
         ctx.unknown('R20d', u, g, 'initialisation not straight-line', construct='line-start generator')
         return
-    # loop variable: the name the yields mention
-    body = symex.Walker(is_sink=lambda n: True, sink_types=(ast.Yield,), want_exits=True,
-                        pure=('find', 'index')).run_block(loop.body)
+    env0 = ends[0].env
+    body = mk().run_block(loop.body)
     ys = [c for c in body if c.kind == 'call']
+    exits = [c for c in body if c.kind != 'call']
     if not ys:
         ctx.refuted('R20d', u, loop, 'the loop yields no line start', construct='line-start generator: loop')
         return
-    kv = None
-    bad = None
-    for c in ys:
-        v = c.sub.value
-        # expected: <x>.find('\n', K) + 1 with K the loop variable at the head of the iteration
-        ok = isinstance(v, ast.BinOp) and isinstance(v.op, ast.Add) and isinstance(v.right, ast.Constant) \
-            and v.right.value == 1 and isinstance(v.left, ast.Call) and call_name(v.left) in ('find', 'index') \
-            and unparse(call_recv(v.left)) == xp and len(v.left.args) == 2 and \
-            isinstance(v.left.args[0], ast.Constant) and v.left.args[0].value == '\n' and \
-            isinstance(v.left.args[1], ast.Name)
+
+    def is_find(e, start=None):
+        ok = isinstance(e, ast.Call) and call_name(e) in ('find', 'index') and unparse(call_recv(e)) == xp \
+            and e.args and isinstance(e.args[0], ast.Constant) and e.args[0].value == '\n'
         if not ok:
-            bad = 'yields %s, not %s.find(NL, <previous line start>) + 1' % (short(v, 70), xp)
-            break
-        kv = v.left.args[1].id
-        # not-found handled before the yield
-        facts = set()
-        for t_, pol in c.conds:
-            for a, ap in symex._atoms(t_, pol):
-                facts.add((unparse(a), ap))
-        nf = unparse(v.left)
-        if not ((nf + ' == -1', False) in facts or (nf + ' != -1', True) in facts or
-                (nf + ' < 0', False) in facts or (nf + ' >= 0', True) in facts):
-            bad = 'yields without having excluded the not-found result -1'
-            break
-    if bad is None:
-        # the loop variable at the end of the iteration is the value just yielded
-        for c in [c for c in body if c.kind in ('end', 'continue')]:
-            nv = c.env.get(kv)
-            if nv is None or unparse(nv) not in [unparse(y.sub.value) for y in ys]:
-                bad = 'the next search starts at %s, not at the line start just found' % (
-                    short(nv) if nv is not None else kv)
-        e0 = ends[0].env.get(kv)
+            return False
+        st = e.args[1] if len(e.args) > 1 else ast.Constant(value=0)
+        return start is None or unparse(st).replace(' ', '') == start.replace(' ', '')
+
+    def found_fact(cs, ftxt):
+        """True/False if the path decides whether the search `ftxt` found a newline, else None"""
+        fs = symex.facts_of(cs.conds)
+        for txt, val in ((ftxt + ' == -1', False), (ftxt + ' < 0', False), (ftxt + ' >= 0', True),
+                         (ftxt + ' > -1', True)):
+            for t_, p_ in fs:
+                if t_ == txt:
+                    return p_ == val
+        return None
+    bad, unk = None, None
+    y0 = ys[0].sub.value
+    # shape S1: the loop variable is the previous line start; the body searches from it
+    if isinstance(y0, ast.BinOp) and isinstance(y0.op, ast.Add) and is_find(y0.left) and \
+            isinstance(y0.right, ast.Constant) and y0.right.value == 1 and len(y0.left.args) == 2 and \
+            isinstance(y0.left.args[1], ast.Name):
+        kv = y0.left.args[1].id
+        ftxt = unparse(y0.left)
+        for c in ys:
+            if unparse(c.sub.value) != unparse(y0):
+                bad = 'yields %s on one path and %s on another' % (short(y0), short(c.sub.value))
+            elif found_fact(c, ftxt) is not True:
+                bad = 'yields without having excluded the not-found result -1'
+        for c in exits:
+            nyield = sum(1 for n_, s_ in c.env.get('#trace', ()) if isinstance(n_, ast.Yield))
+            ff = found_fact(c, ftxt)
+            if ff is True and nyield != 1:
+                bad = ('on the path [%s] a newline was found but %d line starts are recorded: a newline '
+                       'at the very end of the string (or another special case) starts no line, so '
+                       'positions after it are reported on the previous line'
+                       % (' & '.join(c.cond_src())[-110:], nyield))
+            if c.kind in ('end', 'continue'):
+                nv = c.env.get(kv)
+                if ff is True and (nv is None or unparse(nv) != unparse(y0)):
+                    bad = bad or 'the next search starts at %s, not at the line start just found' % (
+                        short(nv) if nv is not None else kv)
+        e0 = env0.get(kv)
         if not (isinstance(e0, ast.Constant) and e0.value == 0):
             bad = bad or 'the first search does not start at 0'
-    ctx.decide('R20d', bad is None, u, loop,
-               'each entry is find(NL, previous line start) + 1; the search continues from that entry',
-               'line-start generator: %s: a line is skipped or counted twice, every later position is '
-               'reported on the wrong line' % bad, construct='line-start generator: loop')
+        # the loop test must not stop while newlines may remain: only `k < len(x)`-like bounds
+        lt = unparse(loop.test).replace(' ', '')
+        if lt not in ('True', '%s<len(%s)' % (kv, xp), '%s<=len(%s)' % (kv, xp)):
+            unk = 'loop test %s not recognised' % short(loop.test)
+    # shape S2: the loop variable is the index of the newline found last
+    elif isinstance(y0, ast.BinOp) and isinstance(y0.op, ast.Add) and isinstance(y0.left, ast.Name) and \
+            isinstance(y0.right, ast.Constant) and y0.right.value == 1:
+        kv = y0.left.id
+        e0 = env0.get(kv)
+        if e0 is None or not is_find(e0, '0'):
+            bad = 'the first search is %s, not %s.find(NL) from position 0' % (short(e0) if e0 is not None else '?', xp)
+        atoms = list(symex._atoms(loop.test, True))
+        stop_ok = [a for a, p_ in atoms if p_ and unparse(a).replace(' ', '') in (
+            kv + '!=-1', kv + '>=0', kv + '>-1')]
+        extra = [a for a, p_ in atoms if not any(a is b for b in stop_ok)]
+        if not stop_ok:
+            unk = 'loop test %s does not test the search result' % short(loop.test)
+        elif extra:
+            bad = bad or ('the loop also stops when %s is false although a newline was found: that newline '
+                          'starts no line (e.g. a newline at the very end of the string), positions after '
+                          'it are reported on the previous line' % ' and '.join(short(a) for a in extra))
+        for c in exits:
+            nyield = sum(1 for n_, s_ in c.env.get('#trace', ()) if isinstance(n_, ast.Yield))
+            if nyield != 1 or c.kind not in ('end', 'continue'):
+                bad = bad or 'an iteration records %d line starts / leaves the loop early' % nyield
+            nv = c.env.get(kv)
+            if c.kind in ('end', 'continue') and not (nv is not None and is_find(nv, unparse(y0))):
+                bad = bad or 'the next search is %s, not %s.find(NL, <line start just recorded>)' % (
+                    short(nv) if nv is not None else '?', xp)
+    elif any(is_find(n_) for n_ in ast.walk(y0)):
+        bad = 'yields %s, not %s.find(NL, <previous line start>) + 1' % (short(y0, 70), xp)
+    else:
+        unk = 'the yielded value %s is not recognised as (index of a newline) + 1' % short(y0)
+    if bad is None and unk is not None:
+        ctx.unknown('R20d', u, loop, unk, construct='line-start generator: loop')
+    else:
+        ctx.decide('R20d', bad is None, u, loop,
+                   'each entry is find(NL, previous line start) + 1, every newline found is recorded; '
+                   'the search continues from that entry',
+                   'line-start generator: %s: a line is skipped or counted twice, every later position is '
+                   'reported on the wrong line' % bad, construct='line-start generator: loop')
 
 
 def _r20c(ctx, u, f):
